@@ -74,6 +74,16 @@ func kindStmtSeq(c *Ctx, it Item) (string, error) {
 			if it["loops"] == true {
 				add("range", x.X)
 			}
+		case *ast.CommClause:
+			// a `default:` arm turns a blocking select into a non-blocking one
+			if it["loops"] == true && x.Comm == nil {
+				for _, pa := range pats {
+					if pa == "select-default" {
+						rows = append(rows, "select-default")
+						break
+					}
+				}
+			}
 		case *ast.ForStmt:
 			if it["loops"] == true && x.Cond != nil {
 				add("for", x.Cond)
